@@ -68,6 +68,8 @@ fn main() {
             }
         }
         "num" => incan_verif_kani::numreplay::main(&args[2..]),
+        #[cfg(feature = "compiler")]
+        "plan" => incan_verif_kani::planreplay::main(&args[2..]),
         _ => {
             eprintln!("unknown mode");
             std::process::exit(2);
